@@ -22,6 +22,8 @@ def run(rep, F, ctx):
     p_C04.lock_nest(rep, F, A)
     panics.unit(rep, F, A.cg)
     panics.arith(rep, F, A.cg)
+    # the public path helpers named by the property's anchors: every potential panic site is discharged or excused
+    panics.no_panic_helpers(rep, F, A.cg, lambda n: n.startswith('sys::fs::path::'), rule='NO-PANIC-HELPERS', floor=8)
     # inventory (evidence only) of potential panic sites in public helpers outside the armed regions
     inv = []
     for n in A.cg.names():
